@@ -263,10 +263,10 @@ impl Envelope {
             .assertions_with_predicate(known_values::HAS_RECIPIENT)
             .into_iter()
             .filter(|assertion| {
-                !assertion.as_object().unwrap().is_obscured()
+                !assertion.subject().as_object().unwrap().is_obscured()
             })
             .map(|assertion| {
-                assertion.as_object().unwrap().extract_subject::<SealedMessage>()
+                assertion.subject().as_object().unwrap().extract_subject::<SealedMessage>()
             })
             .collect()
     }
